@@ -297,6 +297,7 @@ func main() {
 	}
 	if o.Replay == "" {
 		saslReuse(rep, w, sock, &cur)
+		disabledAccount(rep, w, &cur)
 	}
 	if len(atts) > 0 {
 		rep.Sample(atts[len(atts)/2].line())
@@ -442,4 +443,47 @@ func owner(w *world.World, mailbox string) (string, string) {
 		}
 	}
 	return "?", "?"
+}
+
+// disabledAccount: an account that exists and has been disabled by the administrator, verified by the backend all the same
+// (the directory and the mail store disagree for a while), logging in after other accounts have been provisioned: the attempt
+// is refused, or the session is that address's own — never somebody else's.
+func disabledAccount(rep *hx.Report, w *world.World, cur *attempt) {
+	*cur = attempt{"login", "dis1@example.com", "pw", 200}
+	for round := 0; round < 3; round++ {
+		dis := fmt.Sprintf("dis%d@example.com", round)
+		c := w.Login(dis)
+		c.Cmd("CREATE mine")
+		c.Close()
+		if _, err := w.Mgr.GetSharedDB().Exec("UPDATE users SET enabled = 0 WHERE username = ?", strings.SplitN(dis, "@", 2)[0]); err != nil {
+			return
+		}
+		// other accounts are provisioned meanwhile, each with a mailbox of its own
+		for k := 0; k <= round; k++ {
+			o := w.Login(fmt.Sprintf("fresh%d-%d@example.com", round, k))
+			o.Cmd("CREATE private-of-another")
+			o.Close()
+		}
+		rep.Case("disabled-account|"+dis, true)
+		c = w.IMAP(true)
+		r := c.Cmd("LOGIN " + dis + " pw")
+		if !r.OK() {
+			rep.Hit("disabled-account:refused")
+			if c.Cmd(`LIST "" "*"`).OK() {
+				rep.Violate("impl-violation", "authentication vs Model/Auth (Props.C04)", fmt.Sprintf("disabled account %s: after the refusal %q the session answers LIST with OK", dis, r.Tagged), []string{"disabled " + dis})
+			}
+			c.Close()
+			continue
+		}
+		name := fmt.Sprintf("disprobe%d", round)
+		c.Cmd("CREATE " + name)
+		u, d := owner(w, name)
+		if !sameAddress(u+"@"+d, dis) {
+			rep.Violate("impl-violation", "authentication vs Model/Auth (Props.C04.binding_is_verified_address)", fmt.Sprintf("the backend verified %q (an account disabled in the mail store) and the session is bound to the store of %q", dis, u+"@"+d), []string{"disabled " + dis})
+			c.Close()
+			return
+		}
+		rep.Hit("disabled-account:own-store")
+		c.Close()
+	}
 }
